@@ -7,9 +7,10 @@
 //!   itv decode --file bytes                                   print the history a fuzz input decodes to
 
 use itv_core::engine::*;
+use itv_core::engine::watch;
 use itv_core::gen::Profile;
 use itv_core::ir::Op;
-use itv_core::payload::{Payload, Plain, Tracked};
+use itv_core::payload::{IntP, OptP, Payload, Plain, StrP, Tracked, UnitLikeP};
 use itv_core::world::StepCfg;
 use serde_json::json;
 use std::collections::BTreeMap;
@@ -90,8 +91,7 @@ fn plan(prop: &str, tier: &str) -> Plan {
 }
 
 fn cfg_for(prop: &str, exclude: &[String]) -> StepCfg {
-    let _ = prop;
-    StepCfg { exclude: exclude.to_vec(), ..StepCfg::default() }
+    StepCfg { exclude: exclude.to_vec(), target: Some(prop.to_string()), ..StepCfg::default() }
 }
 
 fn write_replay<P: Payload>(prop: &str, v: &Violation, prof: &Profile, cfg: &StepCfg, seed: u64, build: &str) -> String {
@@ -134,7 +134,16 @@ fn main() {
                 eprintln!("this binary was built without the deser feature");
                 std::process::exit(2);
             }
-            std::process::exit(run::<Plain>(&args, &prop, seed, &build, prof, cfg))
+            // the same engine over five payload shapes on the wire: struct, bare integer, optional, string, tuple
+            let which = arg(&args, "--payload").unwrap_or_else(|| "struct".into());
+            let code = match which.as_str() {
+                "int" => run::<IntP>(&args, &prop, seed ^ 0x11, &build, prof, cfg),
+                "opt" => run::<OptP>(&args, &prop, seed ^ 0x22, &build, prof, cfg),
+                "str" => run::<StrP>(&args, &prop, seed ^ 0x33, &build, prof, cfg),
+                "tuple" => run::<UnitLikeP>(&args, &prop, seed ^ 0x44, &build, prof, cfg),
+                _ => run::<Plain>(&args, &prop, seed, &build, prof, cfg),
+            };
+            std::process::exit(code)
         }
         "run" if prop == "C17" => std::process::exit(run::<Plain>(&args, &prop, seed, &build, prof, cfg)),
         "run" => std::process::exit(run::<Tracked>(&args, &prop, seed, &build, prof, cfg)),
@@ -143,7 +152,15 @@ fn main() {
             let rf: ReplayFile = serde_json::from_str(&std::fs::read_to_string(&file).expect("read replay")).expect("parse replay");
             let prof = Profile::for_prop(&rf.profile);
             let cfg = cfg_for(&prop, &[]);
-            let run = if rf.profile == "C16" || rf.profile == "C17" { eval_case::<Plain>(&rf.ops, &prof, &cfg, true) } else { eval_case::<Tracked>(&rf.ops, &prof, &cfg, true) };
+            let run = if rf.profile == "C16" && arg(&args, "--payload").as_deref() == Some("int") {
+                eval_case::<IntP>(&rf.ops, &prof, &cfg, true)
+            } else if rf.profile == "C16" && arg(&args, "--payload").as_deref() == Some("opt") {
+                eval_case::<OptP>(&rf.ops, &prof, &cfg, true)
+            } else if rf.profile == "C16" && arg(&args, "--payload").as_deref() == Some("str") {
+                eval_case::<StrP>(&rf.ops, &prof, &cfg, true)
+            } else if rf.profile == "C16" && arg(&args, "--payload").as_deref() == Some("tuple") {
+                eval_case::<UnitLikeP>(&rf.ops, &prof, &cfg, true)
+            } else if rf.profile == "C16" || rf.profile == "C17" { eval_case::<Plain>(&rf.ops, &prof, &cfg, true) } else { eval_case::<Tracked>(&rf.ops, &prof, &cfg, true) };
             for l in &run.trace {
                 println!("  {l}");
             }
@@ -180,10 +197,23 @@ fn main() {
             println!("{}", serde_json::to_string(&ops).unwrap());
         }
         "decode" => {
+            // fuzz artifact -> replay file (the history / document the bytes decode to)
             let file = arg(&args, "--file").expect("--file");
+            let out = arg(&args, "--out");
             let bytes = std::fs::read(&file).expect("read");
-            let ops = itv_core::gen::decode_bytes(&bytes, 400);
-            println!("{}", serde_json::to_string_pretty(&ops).unwrap());
+            let txt = if prop == "C14" {
+                let case = itv_core::pretty::decode_bytes(&bytes).unwrap_or(itv_core::pretty::PrettyCase { nodes: vec![] });
+                let rf = itv_core::pretty::PrettyReplay { property: "C14".into(), sig: "fuzz".into(), message: format!("decoded from fuzz input {file}"), seed, build: build.clone(), case, note: String::new() };
+                serde_json::to_string_pretty(&rf).unwrap()
+            } else {
+                let ops = itv_core::gen::decode_bytes(&bytes, 96);
+                let rf = ReplayFile { property: prop.clone(), profile: arg(&args, "--profile").unwrap_or_else(|| prop.clone()), sig: "fuzz".into(), message: format!("decoded from fuzz input {file}"), found_by: "libFuzzer".into(), seed, build: build.clone(), ops, trace: vec![], note: String::new() };
+                serde_json::to_string_pretty(&rf).unwrap()
+            };
+            match out {
+                Some(o) => std::fs::write(o, txt).expect("write"),
+                None => println!("{txt}"),
+            }
         }
         _ => {
             eprintln!("usage: itv run|replay|emit|decode …");
@@ -198,6 +228,23 @@ fn run<P: Payload>(args: &[String], prop: &str, seed: u64, build: &str, prof: Pr
     let workers: u64 = arg(args, "--workers").and_then(|s| s.parse().ok()).unwrap_or(16);
     let out_path = arg(args, "--out").unwrap_or_else(|| format!("/verif/target/partial-{prop}-{build}.json"));
     let pl = plan(prop, &tier);
+    // hang supervisor: a single case normally takes well under a second
+    {
+        let limit: u64 = std::env::var("ITV_HANG_SECS").ok().and_then(|s| s.parse().ok()).unwrap_or(90);
+        let (prop_s, build_s) = (prop.to_string(), build.to_string());
+        std::thread::spawn(move || loop {
+            std::thread::sleep(std::time::Duration::from_millis(1000));
+            if let Some((ops, profile, secs)) = watch::overdue(limit) {
+                let dir = format!("/verif/replays/{prop_s}");
+                std::fs::create_dir_all(&dir).ok();
+                let path = format!("{dir}/hang-{build_s}.json");
+                let rf = ReplayFile { property: prop_s.clone(), profile, sig: "hang/case-does-not-finish".into(), message: format!("one generated case has been running for {secs} s (normally milliseconds)"), found_by: "watchdog".into(), seed: 0, build: build_s.clone(), ops, trace: vec![], note: String::new() };
+                std::fs::write(&path, serde_json::to_string_pretty(&rf).unwrap()).ok();
+                println!("HANG property={prop_s} replay={path}");
+                std::process::exit(3);
+            }
+        });
+    }
     let mut total = Stats::default();
     let mut engines = BTreeMap::new();
     let mut violation: Option<Violation> = None;
@@ -236,7 +283,9 @@ fn run<P: Payload>(args: &[String], prop: &str, seed: u64, build: &str, prof: Pr
                 let res = &res;
                 s.spawn(move || {
                     itv_core::silence_panics();
+                    watch::set_worker(sh);
                     let o = f(sh);
+                    watch::end(sh);
                     res.lock().unwrap().push((sh, o));
                 });
             }
@@ -296,6 +345,7 @@ fn run<P: Payload>(args: &[String], prop: &str, seed: u64, build: &str, prof: Pr
                 let (rc, lc) = (pl.random_cases / workers, pl.long_cases / workers);
                 s.spawn(move || {
                     itv_core::silence_panics();
+                    watch::set_worker(w as usize);
                     let mut o = random_worker::<P>(prop, prof, cfg, seed, w, rc, &stop);
                     if o.violation.is_none() && lc > 0 && !stop.load(Ordering::Relaxed) {
                         let o2 = random_worker::<P>(prop, long_prof, cfg, seed ^ 0x10_06, w + 1000, lc, &stop);
